@@ -203,20 +203,21 @@ def sym_state(dom, cfg, solver, prior_sym, statepfx="s"):
     tf = st0.u.tree_flatten
     m, L = cm.sym_rv(dom, cfg.ssm, cfg.n, cfg.d, statepfx, chol=cfg.statechol)
     u = Normal(m, L, tf)
-    t = sym_array(dom, "t0", ())
+    t = sym_array(dom, "t0" if statepfx == "s" else statepfx + "t", ())
     info = {"m": m, "L": L, "t": t}
     if cfg.strategy == "filter":
         post = u
     else:
         Cond, _ = cm.impl(cfg.ssm)
-        bA, bb, bQ, btl, bto = cm.sym_cond(dom, cfg.ssm, cfg.n, cfg.n, cfg.d, "bw", scal="unit")
+        bA, bb, bQ, btl, bto = cm.sym_cond(dom, cfg.ssm, cfg.n, cfg.n, cfg.d,
+                                           "bw" if statepfx == "s" else statepfx + "bw", scal="unit")
         bw = Cond(bA, Normal(bb, bQ, tf), to_latent=btl, to_observed=bto)
         post = MarkovSequence(u, bw, reverse=True)
         info["bw"] = (bA, bb, bQ, btl, bto)
     aux = st0.auxiliary
     if cfg.calib == "mle":
         shape = np.shape(st0.auxiliary[1])
-        r = sym_array(dom, "run", shape)
+        r = sym_array(dom, "run" if statepfx == "s" else statepfx + "run", shape)
         aux = (st0.auxiliary[0], r, float(cfg.num_data))
         info["running"] = r
     state = ProbabilisticSolution(t=t, u=u, solution_full=post, output_scale=st0.output_scale,
